@@ -6,8 +6,8 @@ import Mathlib.Algebra.Order.BigOperators.Group.List
   Helper lemmas for the `Allocation` model over an arbitrary linearly ordered field
   (used by `FV/Props/C02.lean` and `FV/Props/C12.lean`).
 -/
-namespace FV
-open FV.Rect FV.C18
+namespace FV.Alloc
+open FV FV.Rect FV.C18
 set_option linter.unusedSectionVars false
 set_option linter.unusedSimpArgs false
 set_option linter.unusedVariables false
@@ -1997,4 +1997,89 @@ theorem pySum_eq_sum (l : List α) : pySum l = l.sum := by
   have : isZero (zero : α) = true := by rw [isZero_iff]; simp
   simp [this]
 
-end FV
+/-! ### refinement keeps the split condition (children inherit ratios and the fixed flag) -/
+
+theorem halvings_fixed (l : Nat) : ∀ (r : Rect α), ∀ p ∈ halvings r l, p.fixed = r.fixed := by
+  induction l with
+  | zero => intro r p hp; simp [halvings] at hp; subst hp; rfl
+  | succ l ih =>
+    intro r p hp
+    simp only [halvings, List.mem_append] at hp
+    have h1 : (halveLonger r).1.fixed = r.fixed := by unfold halveLonger; split <;> rfl
+    have h2 : (halveLonger r).2.fixed = r.fixed := by unfold halveLonger; split <;> rfl
+    rcases hp with hp | hp
+    · rw [ih _ p hp, h1]
+    · rw [ih _ p hp, h2]
+
+theorem halvings_ne_nil (r : Rect α) (l : Nat) : halvings r l ≠ [] := by
+  intro h
+  have := halvings_length r l
+  rw [h] at this
+  simp at this
+  exact absurd this.symm (by positivity)
+
+/-- once some cell satisfies the split condition, so does a cell of the refined list (its children carry the same
+    ratios and are not fixed): the predicate `must_be_refined` stays true after `refine`. -/
+theorem any_splitCond_refined (t : α) (levels : Nat) (cells : List (Cell α))
+    (h : cells.any (splitCond t) = true) : (cells.flatMap (refinedCell t levels)).any (splitCond t) = true := by
+  rw [List.any_eq_true] at h ⊢
+  obtain ⟨c, hc, hs⟩ := h
+  obtain ⟨r, rs, hr⟩ := List.exists_cons_of_ne_nil (halvings_ne_nil c.rect levels)
+  have hrm : r ∈ halvings c.rect levels := by rw [hr]; simp
+  refine ⟨⟨r, c.alloc, c.depth + levels⟩, ?_, ?_⟩
+  · rw [List.mem_flatMap]
+    refine ⟨c, hc, ?_⟩
+    unfold refinedCell
+    simp only [hs, ↓reduceIte, List.mem_map]
+    exact ⟨r, hrm, rfl⟩
+  · have hf := halvings_fixed levels c.rect r hrm
+    simp only [splitCond, Bool.and_eq_true, Bool.not_eq_true'] at hs ⊢
+    exact ⟨⟨by rw [hf]; exact hs.1.1, hs.1.2⟩, hs.2⟩
+
+/-! ### concrete allocations over `ℚ` (non-vacuity witnesses shared by the property files) -/
+
+def isOk {ε β : Type} : Except ε β → Bool | .ok _ => true | .error _ => false
+
+/-- an input the constructor accepts yields a valid allocation (packaging of `mkAllocation_valid`). -/
+theorem valid_of_isOk (env : Env α) (st : Eps α) (raw : List (RawCell α)) (hraw : ∀ rc ∈ raw, RawPos rc)
+    (hst : 0 ≤ st.dist → 0 ≤ st.area) (htiny : 0 ≤ env.tiny) (hsqrt : ∀ x, 0 ≤ env.sqrt x)
+    (h : isOk (mkAllocation env st raw) = true) :
+    ∃ a st', mkAllocation env st raw = .ok (a, st') ∧ ValidAlloc st' a := by
+  cases hm : mkAllocation env st raw with
+  | error e => rw [hm] at h; cases h
+  | ok p =>
+    obtain ⟨a, st'⟩ := p
+    exact ⟨a, st', rfl, mkAllocation_valid env st raw a st' hraw hst htiny hsqrt hm⟩
+
+def exEnv : Env ℚ := ⟨1 / 1000000000000, 1 / 100, fun _ => 1 / 1000⟩
+
+/-- three cells: two modules / region `dsp` at depth 1 / an EMPTY ratio map. -/
+def exRaw : List (RawCell ℚ) :=
+  [⟨.vec 1 1 2 2 none, [("M1", 1/2), ("M2", 1/4)], 0⟩,
+   ⟨.vec 3 (1/2) 2 1 (some "dsp"), [("M2", 3/4)], 1⟩,
+   ⟨.vec 3 (3/2) 2 1 none, [], 0⟩]
+
+/-- three cells given as `Rectangle` objects, the second one the cell of a FIXED module (flag set, ratio 1,
+    depth 0); the third one is at depth 1, so that uniform refinement has work to do. -/
+def exRawF : List (RawCell ℚ) :=
+  [⟨.obj ⟨1, 1, 2, 2, "_", false, false, .nopoly⟩, [("M1", 1/2)], 0⟩,
+   ⟨.obj ⟨3, 1, 2, 2, "_", true, true, .nopoly⟩, [("FIX", 1)], 0⟩,
+   ⟨.obj ⟨5, 1, 2, 2, "_", false, false, .nopoly⟩, [("M2", 1/4)], 1⟩]
+
+theorem exRaw_valid : ∃ a st, mkAllocation exEnv ⟨-1, -1⟩ exRaw = .ok (a, st) ∧ ValidAlloc st a := by
+  apply valid_of_isOk
+  · intro rc h; simp [exRaw] at h; rcases h with rfl | rfl | rfl <;> trivial
+  · intro h; norm_num at h
+  · norm_num [exEnv]
+  · intro x; norm_num [exEnv]
+  · decide +kernel
+
+theorem exRawF_valid : ∃ a st, mkAllocation exEnv ⟨-1, -1⟩ exRawF = .ok (a, st) ∧ ValidAlloc st a := by
+  apply valid_of_isOk
+  · intro rc h; simp [exRawF] at h; rcases h with rfl | rfl | rfl <;> simp [RawPos]
+  · intro h; norm_num at h
+  · norm_num [exEnv]
+  · intro x; norm_num [exEnv]
+  · decide +kernel
+
+end FV.Alloc
